@@ -236,6 +236,24 @@ def run(m: Model, r: Report, tier: str) -> None:
                         f"attribute {fname} has shape {bad} which the {side} conversion loop of insert_scan_result does not make "
                         "JSON-serialisable: json.dumps raises and the whole row is lost", loc=cls.loc, fact_ok=f"{sorted(sh)} handled")
 
+    # which attributes are written: every public one, and never the back-reference to the request
+    from sa import miniterp as _mt
+    for l in loops:
+        side = "request" if ast.unparse(l.iter).startswith("request.") else "response"
+        if not (isinstance(l.target, ast.Tuple) and len(l.target.elts) == 2 and isinstance(l.target.elts[0], ast.Name)):
+            raise AnalysisError(f"{hins.qualname}: attribute loop target changed")
+        av = l.target.elts[0].id
+        sel = [x for x in l.body if isinstance(x, ast.If)]
+        if len(sel) != 1:
+            raise AnalysisError(f"{hins.qualname}: attribute selection of the {side} loop not found")
+        badsel = []
+        for name, want in (("data_identifier", True), ("_pdu", False), ("trigger_request", side == "request"), ("dtc_status_mask", True)):
+            got = bool(_mt.eval_expr(sel[0].test, {av: name}))
+            if got != want:
+                badsel.append(f"{name} -> {'stored' if got else 'left out'}")
+        r.check(not badsel, "R6", f"{hins.qualname}#{side}-attribute-selection",
+                f"{badsel}: exactly the public attributes are stored" + (" (the response's trigger_request back-reference is not serialisable and must be left out)" if side == "response" else ""), loc=hins.loc)
+
     # ---------------------------------------------------------------- R7
     dis = m.require_function(f"{HANDLER}.DBHandler.disconnect")
     def line_of(pred) -> list[int]:
@@ -249,6 +267,22 @@ def run(m: Model, r: Report, tier: str) -> None:
     jl = [n.lineno for n in all_join_calls]
     r.check(bool(jl and cancel and close) and max(jl) < min(cancel) < min(close), "R7", f"{dis.qualname}#order",
             f"join at {jl}, cancel at {cancel}, connection.close at {close}", loc=dis.loc)
+    gdz = CFG(dis.node)
+    commit_n = {n.id for n in gdz.nodes.values() if n.kind == "stmt" and n.ast is not None and "self.connection.commit()" in ast.unparse(n.ast)}
+    close_n = {n.id for n in gdz.nodes.values() if n.kind == "stmt" and n.ast is not None and "self.connection.close()" in ast.unparse(n.ast)}
+    okcm, _ = gdz.must_pass(gdz.entry, commit_n, close_n) if commit_n and close_n else (False, [])
+    okcl, _ = gdz.must_pass(gdz.entry, close_n, {gdz.exit_return}) if close_n else (False, [])
+    r.check(okcm and okcl, "R7", f"{dis.qualname}#commit-then-close", "the connection must be committed before it is closed, and closed on every normal exit", loc=dis.loc)
+    await_task = [n for n in ast.walk(dis.node) if isinstance(n, ast.Await) and ast.unparse(n.value) == "self._executor_task"]
+    r.check(len(await_task) == 1 and cancel and await_task[0].lineno > min(cancel), "R7", f"{dis.qualname}#awaits-cancelled-writer",
+            "the cancelled writer task must be awaited before the connection is closed (it may still be inside execute/commit)", loc=dis.loc)
+    exf = m.require_function(f"{HANDLER}.DBHandler._executor_func")
+    gex = CFG(exf.node)
+    exe_n = [n.id for n in gex.nodes.values() if n.kind == "stmt" and n.ast is not None and "self.connection.execute(" in ast.unparse(n.ast)]
+    com_n = {n.id for n in gex.nodes.values() if n.kind == "stmt" and n.ast is not None and "self.connection.commit()" in ast.unparse(n.ast)}
+    td_n = {n.id for n in gex.nodes.values() if n.ast is not None and "task_done()" in ast.unparse(n.ast) and n.kind == "stmt"}
+    okx = bool(exe_n) and bool(com_n) and all(gex.must_pass(e_, com_n, td_n, skip_edge=lambda n, b, k: k == "exc")[0] for e_ in exe_n)
+    r.check(okx, "R7", f"{exf.qualname}#commit-per-row", "every executed row must be committed before it is reported done to join()", loc=exf.loc)
     conn = m.require_function(f"{HANDLER}.DBHandler.connect")
     tasks = [n for n in ast.walk(dbh.node) if isinstance(n, ast.Call) and ast.unparse(n.func) == "asyncio.create_task" and "_executor_func" in ast.unparse(n)]
     r.check(len(tasks) == 1, "R7", f"{dbh.qualname}#single-consumer", f"{len(tasks)} consumer tasks are created", loc=conn.loc)
